@@ -7,11 +7,6 @@ From Coq Require Import List Arith Lia Bool.
 Import ListNotations.
 From Oxy Require Import Model.Lockset Proofs.LocksetProofs Gen.Accesses.
 
-(* the finite table is checked exhaustively by computation, then lifted: a proof, the domain is the whole generated program *)
-Theorem C09_discipline : discipline accesses.
-Proof. apply discipline_b_sound. vm_compute. reflexivity. Qed.
-Print Assumptions C09_discipline.
-
 (* generic soundness: discipline => any two conflicting accesses of different threads are ordered by happens-before *)
 Theorem C09_lockset_sound : forall prog, discipline prog ->
   forall tr, wf tr -> respects prog tr ->
@@ -20,6 +15,11 @@ Theorem C09_lockset_sound : forall prog, discipline prog ->
     t1 <> t2 -> conflicting_sites s1 s2 -> hb tr i j.
 Proof. exact lockset_sound. Qed.
 Print Assumptions C09_lockset_sound.
+
+(* the finite table is checked exhaustively by computation, then lifted: a proof, the domain is the whole generated program *)
+Theorem C09_discipline : discipline accesses.
+Proof. apply discipline_b_sound. vm_compute. reflexivity. Qed.
+Print Assumptions C09_discipline.
 
 (* the translated oxy program has no data race, in any interleaving of any number of goroutines *)
 Theorem C09_race_free : forall tr, wf tr -> respects accesses tr ->
